@@ -11,6 +11,7 @@ from . import expr as _e
 
 LIB = {}
 LIB_CLASSES = {"object": {"bases": []}}
+LIB_OBJECTS = {}
 
 
 def lib(name):
@@ -385,3 +386,45 @@ def _floor(args, kwargs, st, eng):
     v = eng.deref(args[0], st)
     if isinstance(v, VInt): return v
     return VInt(z3.ToInt(v.t))
+
+
+# ----------------------------------------------------------------------------- torch.utils.data
+LIB_CLASSES["torch.utils.data.ConcatDataset"] = {"bases": ["object"]}
+LIB_CLASSES["torch.utils.data.Dataset"] = {"bases": ["object"]}
+
+
+@lib("torch.utils.data.ConcatDataset.__init__")
+def _concat_init(args, kwargs, st, eng):
+    """torch ConcatDataset.__init__(datasets): stores list(datasets) and cumulative_sizes = running sum of their
+    lengths (hence non-decreasing, same length). Raises on an empty list (torch asserts len > 0)."""
+    ref, ds = args[0], eng.as_seq(args[1], st)
+    eng.safety(st, "ConcatDataset:nonempty", ds.len > 0, None, "ConcatDataset needs at least one dataset")
+    name = uid("cumsizes")
+    cs = z3.Function(name, z3.IntSort(), z3.IntSort())
+    k, i, j = z3.Int(uid("k")), z3.Int(uid("i")), z3.Int(uid("j"))
+
+    def ln(t):
+        return eng.builtins["len"].fn([ds.elem(t)], {}, st, eng).t
+    st.assume(cs(0) == ln(z3.IntVal(0)),
+              z3.ForAll([k], z3.Implies(z3.And(0 <= k, k + 1 < ds.len), cs(k + 1) == cs(k) + ln(k + 1))),
+              z3.ForAll([k], z3.Implies(z3.And(0 <= k, k < ds.len), ln(k) >= 0)),
+              z3.ForAll([i, j], z3.Implies(z3.And(0 <= i, i <= j, j < ds.len), cs(i) <= cs(j))))
+    obj = st.heap[ref.oid]
+    obj.fields["datasets"] = st.alloc(ds)
+    obj.fields["cumulative_sizes"] = st.alloc(VSeq(ds.len, lambda t: VInt(cs(t)), INT))
+    return [(st, NONEV)]
+
+
+@lib("torch.utils.data.ConcatDataset.__len__")
+def _concat_len(args, kwargs, st, eng):
+    obj = st.heap[args[0].oid]
+    cs = eng.deref(obj.fields["cumulative_sizes"], st)
+    return [(st, cs.elem(cs.len - 1))]
+
+
+def _default_collate_obj():
+    from .absobj import AbsCallable
+    return AbsCallable("torch.default_collate", ())
+
+
+LIB_OBJECTS["torch.utils.data.default_collate"] = _default_collate_obj
